@@ -199,9 +199,7 @@ def oracle(case, rec):
         base.parameters = pt["theta"]
         ref = ir.reference_float(m, pt["x"], pt["t"], pt["theta"])
         # (size of the terms summed into the reference: contributions of different events may cancel, see C01)
-        tf_ = float(np.abs(ref["pure"]).max()) if n_s else 0.0
-        if n_e:
-            tf_ += float(np.abs(ref["V"]).dot(np.abs(ref["rates"])).max())
+        tf_ = ir.term_scale(m, pt["x"], pt["t"], pt["theta"])
         cmp(arr(base.ode(pt["x"], pt["t"]), (n_s,), "ode", "C12/ode", case), ref["f"], "baseline ode vs abstract model", "C12/baseline-vs-ir", case, 1e-9,
             terms=25 * tf_)
     has_birth = any(t["kind"] == "B" for e in m["events"] for t in e["trans"])
